@@ -139,6 +139,11 @@ def r2(ctx, prog):
                 srcs = {g.stmts[x].get('d') for a in st['args'][1:] for x in g.walk(a) if g.stmts[x]['k'] == 'DeclRefExpr'}
                 if srcs & set(by_decl):
                     sinks.append(st)
+            # the same label text accumulated in a std::string (+=, append)
+            if (st.get('op') == '+=' or st.get('fn') == 'append') and 'basic_string' in (st.get('cls') or ''):
+                srcs = {g.stmts[x].get('d') for a in st.get('args', []) for x in g.walk(a) if g.stmts[x]['k'] == 'DeclRefExpr'}
+                if srcs & set(by_decl):
+                    sinks.append(st)
         for s_ in sinks:
             n += 1
             p = q.pt(g, s_)
@@ -380,6 +385,32 @@ def r10(ctx, prog):
                'are reported as answers of this one' % ap, where=g.loc(i['i']))
 
 
+def r11(ctx, prog):
+    ctx.rule('C15.R11', 'A9d error discipline: no status of the deserializer is dropped on the datagram path — every bool-returning Deserializer call (fetch*, skip, set_pos, '
+             'checkSize) has its result used (condition, return value, assignment, operand), never discarded', floor=10)
+    f, fs = parse_funcs(prog)
+    n = 0
+    for g in fs:
+        for st in g.calls():
+            if st.get('cls') != DES or st.get('fn') not in ('fetch', 'fetchPOD', 'skip', 'set_pos', 'checkSize', 'fetchNoCopy'):
+                continue
+            if (st.get('ct') or st.get('t') or '') not in ('bool', '_Bool'):
+                continue
+            n += 1
+            par = g.s(g.parent.get(st['i']))
+            while par is not None and par['k'] in ('ExprWithCleanups', 'ParenExpr'):
+                par = g.s(g.parent.get(par['i']))
+            # discarded: the call is a statement of a compound / a for-increment / the body of an if/loop
+            discarded = par is None or par['k'] in ('CompoundStmt',) or \
+                (par['k'] in ('IfStmt', 'ForStmt', 'WhileStmt', 'DoStmt', 'CXXForRangeStmt') and st['i'] != par.get('cond') and st['i'] not in set(g.walk(par.get('cond', -1)) if par.get('cond') is not None else ())) or \
+                (par['k'] == 'CStyleCastExpr' and 'void' in (par.get('t') or ''))
+            ctx.ob('C15.R11', '%s|%s@%s' % (g.name, st['fn'], g.loc(st['i']).split(':')[-1]), not discarded, 'result of %s() is used' % st['fn'] if not discarded else
+                   'the result of Deserializer::%s() is discarded: when it fails (position/size out of range) parsing goes on from wherever the cursor is, and bytes that are not '
+                   'records are reported as answers' % st['fn'], where=g.loc(st['i']))
+    if n < 10:
+        raise AnalysisBroken('expected >= 10 status-returning Deserializer calls on the datagram path, saw %d' % n)
+
+
 def run(ctx):
     prog = extract('ALL' if ctx.tier == 'thorough' else SCOPE)
     ctx.guard(r1, ctx, prog)
@@ -391,6 +422,7 @@ def run(ctx):
     ctx.guard(tmon.run, ctx, prog, 'C15.R7')
     ctx.guard(tmon.run_users, ctx, prog, 'C15.R9', DNS)
     ctx.guard(r10, ctx, prog)
+    ctx.guard(r11, ctx, prog)
     ctx.guard(harden.run, ctx, prog, 'C15.R8', [prog.fn1(DNS + '::onUdpRecv')],
               lambda g: g.file.startswith(MODULES + '/network/') or g.file.startswith(MODULES + '/util/'), 'DNS datagram path')
     return prog
